@@ -4,6 +4,7 @@ EXTENDS AdminOp
 \* ---- power distributions (index = node id)
 P111x == <<1, 1, 1, -1>>        \* three validators, node 4 outside
 P1120 == <<1, 1, 2, 0>>         \* node 3 heavier, node 4 a member without power
+P2120 == <<2, 1, 2, 0>>         \* total 5 (= 2 mod 3): exactly 3 of 5 is NOT more than 2/3; node 4 without power
 P3111 == <<3, 1, 1, 1>>         \* node 1 holds half
 P1111 == <<1, 1, 1, 1>>
 
@@ -46,12 +47,12 @@ BodiesM == { B(c, t, p, a, n) : c \in {"add", "update", "remove"}, t \in {2, 4},
                   [B("add", 4, 2, "b", 0) EXCEPT !.self = "bad"],
                   B("remove", 3, 0, "b", 0), B("remove", 1, 0, "a", 0), B("remove", 1, 0, "a", 1) }
 
-\* second graph configuration (with P1120: node 3 heavy, node 4 a member without power)
+\* second graph configuration (with P2120: total power 5, nodes 1 and 3 heavy, node 4 a member without power)
 BodiesG == { B("update", 4, 2, "a", 0), B("update", 3, 1, "b", 0), B("remove", 4, 0, "b", 0), B("add", 4, 0, "a", 0),
              B("bogus", 2, 2, "a", 0), [B("update", 2, 2, "b", 0) EXCEPT !.ct = "bad"] }
 ListsG  == { <<E("ok",1), E("ok",2), E("ok",3)>>,
-             <<E("ok",3), E("ok",1)>>,                       \* 3 of 4
-             <<E("ok",1), E("ok",2), E("ok",4)>>,            \* 2 of 4 plus a powerless member
+             <<E("ok",3), E("ok",1)>>,                       \* 4 of 5
+             <<E("ok",1), E("ok",2), E("ok",4)>>,            \* exactly 3 of 5 (the boundary) plus a powerless member
              <<E("ok",3), E("ok",3)>>,                       \* the heavy validator twice
              <<E("ok",3), E("garbage",1), E("wrong",2)>> }
 
